@@ -76,20 +76,20 @@ class Sess:
         self.model.close()
 
 
-def one_history(chk, sess, lines, tag, origin):
+def one_history(chk, sess, lines, tag, origin, expect=None):
     wd = os.path.join(TMP, tag)
     rc, out, err, sp, tp = E.run_impl(sess.drv, lines, wd, env=ENV)
     if rc != 0:
-        # classify with the model: fault 8 = a build returned success while rules were left IsScanning (their scan records are freed);
-        # the implementation then crashes in a later build
-        mo = sess.model.run(sp, tp)
-        if "MODEL-FAULT 8" in mo:
-            chk.violation("stale-scan-after-success", "a build returned success leaving rules IsScanning (scan cycle reached only through a discovered dependency "
-                          "of a completed task); a later build on the same engine crashed with status %s" % rc,
-                          dict(scenario=lines, implementation=out, model=mo, origin=origin), found_input=True, broken="executeTasks stall test (only the requested rule is tested for IsScanning)")
-        else:
-            chk.violation("driver-crash", "engine_driver exited with status %s" % rc, dict(scenario=lines, stderr=err[-2000:], origin=origin), found_input=True)
+        chk.violation("driver-crash", "engine_driver exited with status %s" % rc, dict(scenario=lines, stderr=err[-2000:], origin=origin), found_input=True,
+                      broken="memory safety of the engine across builds (e.g. rules left IsScanning by a build that returned success)")
         return False
+    if expect is not None:
+        got = ["fail" if (b["result"] or "").startswith("result EMPTY") else "ok" for b in E.split_builds(out) if b["hdr"] != "restart"]
+        if got != expect:
+            chk.violation("stale-scan-after-success", "a build succeeded although a rule reached through a discovered dependency was left scanning "
+                          "(expected build outcomes %s, got %s)" % (expect, got), dict(scenario=lines, implementation=out, origin=origin), found_input=True,
+                          broken="executeTasks stall test (every scanning rule must be seen)")
+            return False
     # oracle O on the implementation alone
     bad = []
     for b in E.split_builds(out):
@@ -101,10 +101,6 @@ def one_history(chk, sess, lines, tag, origin):
                       dict(scenario=lines, implementation=out, origin=origin), found_input=True, broken="task protocol / at-most-once on the implementation")
         return False
     mo = sess.model.run(sp, tp)
-    if "MODEL-FAULT 8" in mo:
-        # stale IsScanning after a successful build that no later build of this history touches: no observable difference
-        chk.notes["stale_scanning_after_success (model fault 8, no crash in this history)"] = chk.notes.get("stale_scanning_after_success (model fault 8, no crash in this history)", 0) + 1
-        mo = [x for x in mo if x != "MODEL-FAULT 8"]
     nexec = sum(1 for x in out if x.startswith("create "))
     ncyc = sum(1 for x in out if x.startswith("cycle"))
     nwait = sum(1 for x in out if x == "wait")
@@ -136,9 +132,17 @@ CORPUS = [
 ]
 
 
+# fixed e39d106: scan cycle 2 <-> 3 among recorded dependencies, reached only through the discovered dependency of the completed root 5: the build
+# of 5 used to SUCCEED leaving 2 and 3 IsScanning (their scan records freed), and the next build of 2 crashed (Impl: ibuild_v0, impl_done_quiescent_v0_refuted)
+STALE_SCAN = ["db 1", "rule 0 sig=0 obs=1", "rule 2 sig=0 obs=0 req=3", "rule 3 sig=0 obs=0 req=0 disc=2", "rule 5 sig=0 obs=1 disc=2", "set 0 1", "set 5 1",
+              "build 2", "build 5", "build 2", "build 3"]
+
+
 def run(chk):
     sess = Sess(chk)
     chk.proof_gate()
+    one_history(chk, sess, STALE_SCAN, "stale-scan", "corpus", expect=["ok", "fail", "fail", "fail"])
+    one_history(chk, sess, ["db 0"] + STALE_SCAN[1:], "stale-scan-nodb", "corpus", expect=["ok", "fail", "fail", "fail"])
     for i, L in enumerate(CORPUS):
         one_history(chk, sess, L, "corpus%d" % i, "corpus")
     n = chk.n(150, 6000)
